@@ -5,6 +5,7 @@ import (
 	"bytes"
 	"fmt"
 	"os"
+	"runtime/debug"
 	"sort"
 	"strconv"
 	"time"
@@ -114,6 +115,9 @@ func catch(f func()) (p interface{}) {
 	defer func() {
 		if r := recover(); r != nil {
 			p = r
+			if os.Getenv("VERIF_DEBUG") != "" {
+				fmt.Fprintf(os.Stderr, "twin.catch: %v\n%s\n", r, debug.Stack())
+			}
 		}
 	}()
 	f()
